@@ -118,9 +118,7 @@ class OPGenerator(Generator):
         elif self.prize_type == "unif":
             prize = (
                 1
-                + torch.randint(
-                    0, 100, (*batch_size, self.num_loc), device=self.device
-                ).float()
+                + torch.randint(0, 100, (*batch_size, self.num_loc)).float()
             ) / 100
         elif self.prize_type == "dist":  # based on the distance to the depot
             prize = (locs_with_depot[..., 0:1, :] - locs_with_depot[..., 1:, :]).norm(
